@@ -62,7 +62,7 @@ DoCleanup == Step(Base("Cleanup"))
 DoPayment == st.pay < 2 /\ Step(Base("PaymentReceived"))
 DoQuote == Record /\ Step(Base("Quote"))
 \* crash at any point; the write body in progress (any runnable W) may leave a torn file
-DoRestart == /\ WithCrash /\ ~g.restarted
+DoRestart == /\ WithCrash /\ ~g.restarted /\ n >= 2
              /\ \E tk \in {0} \cup {st.tasks[i].k : i \in {j \in Runnable(st) : st.tasks[j].kind = "W"}} :
                    Step([Base("Restart") EXCEPT !.k = tk])
 
